@@ -24,7 +24,7 @@ class Unsupported(Exception):
     """the observation cannot be expressed in the spec's language (not a verdict about Polar)"""
 
 
-class JobTimeout(Exception):
+class JobTimeout(BaseException):
     pass
 
 
@@ -275,6 +275,11 @@ def job_analyze(job):
 
     res = {"id": job["id"], "kind": "analyze"}
     apply_settings(job.get("settings"))
+    import cli.common as _cc
+    if job.get("force_cyclic"):
+        _cc.RecurrenceSolver = lambda recs, *a, **k: RecurrenceSolver(recs, *a, force_cyclic_solver=True, **k)
+    else:
+        _cc.RecurrenceSolver = RecurrenceSolver
     want = set(job.get("want", ["parsed", "moments"]))
     points = job.get("points") or [{}]
     N = job.get("N", 6)
@@ -385,6 +390,39 @@ def job_analyze(job):
                       where=traceback.extract_tb(ex.__traceback__)[-1].name)
     res["goals"] = goals_out
 
+    # ---- sensitivities (both methods)
+    if "sens" in want and dparam:
+        from recurrences import DiffRecBuilder
+        sout = {}
+        param = symengine.Symbol(dparam)
+        try:
+            drb = DiffRecBuilder(program, param)
+        except Exception as ex:
+            drb = None
+            res["sens_builder_exc"] = f"{type(ex).__name__}: {str(ex)[:200]}"
+        dsolvers = {}
+        for g in job.get("goals", []):
+            so = {}
+            sout[g] = so
+            monom = symengine.sympify(g)
+            try:
+                moment, is_exact = get_moment(monom, solvers, rec_builder, cli_args, program)
+                d = sympy.sympify(moment).diff(sympy.Symbol(dparam)).simplify()
+                so["diff_closed_form"] = [[eval_closed_form(d, pt, n) for n in range(N + 1)] for pt in points]
+            except JobTimeout:
+                raise
+            except Exception as ex:
+                so["diff_closed_form_exc"] = f"{type(ex).__name__}: {str(ex)[:200]}"
+            if drb is not None:
+                try:
+                    dm, is_exact = get_moment(monom, dsolvers, drb, cli_args, program)
+                    so["diff_recurrences"] = [[eval_closed_form(dm, pt, n) for n in range(N + 1)] for pt in points]
+                except JobTimeout:
+                    raise
+                except Exception as ex:
+                    so["diff_recurrences_exc"] = f"{type(ex).__name__}: {str(ex)[:200]}"
+        res["sens"] = sout
+
     # ---- moments given termination / central / cumulants
     if "term" in want:
         tout = {}
@@ -487,6 +525,7 @@ def job_linrec(job):
         so = {"sid": sysd["sid"], "modes": []}
         for mode in job["modes"]:
             mo = {"mode": mode}
+            signal.alarm(int(job.get("per_system_timeout", 60)))
             try:
                 recs = Recurrences(rd, iv, stub)
                 solver = RecurrenceSolver(recs, mode.get("numeric_roots", False), mode.get("numeric_croots", False),
@@ -501,15 +540,219 @@ def job_linrec(job):
                 mo["is_exact"] = bool(solver.is_exact)
                 mo["comps"] = comps
             except JobTimeout:
-                raise
+                mo.update(exc="timeout")
             except Exception as ex:
                 mo.update(exc=type(ex).__name__, msg=str(ex)[:200])
+            finally:
+                signal.alarm(int(job.get("timeout", 900)))
             so["modes"].append(mo)
         out.append(so)
     return {"id": job["id"], "systems": out}
 
 
-JOBS = {"analyze": job_analyze, "linrec": job_linrec}
+def job_explattice(job):
+    from invariants.exponent_lattice import ExponentLattice
+    out = []
+    for item in job["lists"]:
+        o = {"lid": item["lid"]}
+        try:
+            bases = [sympy.sympify(b) for b in item["bases"]]
+            signal.alarm(int(item.get("timeout", 60)))
+            basis = ExponentLattice(bases).compute_basis()
+            o["basis"] = [[int(x) for x in row] for row in basis]
+        except JobTimeout:
+            o["exc"] = "timeout"
+        except Exception as ex:
+            o.update(exc=type(ex).__name__, msg=str(ex)[:200])
+        finally:
+            signal.alarm(int(job.get("timeout", 600)))
+        out.append(o)
+    return {"id": job["id"], "lists": out}
+
+
+class Scripted:
+    """scripted random source: follows a prefix of option indices, then always takes the first option
+    with positive weight; logs every call"""
+
+    def __init__(self, prefix, sparse=False):
+        self.prefix = list(prefix)
+        self.pos = 0
+        self.log = []
+        self.sparse = sparse
+
+    def pick(self, kind, weights):
+        options = [i for i, w in enumerate(weights) if w > 0]
+        if self.sparse and kind == "choices" and len(weights) == 1:
+            self.log.append({"kind": kind, "weights": [float(w) for w in weights], "idx": 0, "options": options})
+            return 0
+        if self.pos < len(self.prefix):
+            idx = self.prefix[self.pos]
+        else:
+            idx = options[0]
+        self.pos += 1
+        self.log.append({"kind": kind, "weights": [float(w) for w in weights], "idx": idx, "options": options})
+        return idx
+
+
+def float_frac(x):
+    a, b = float(x).as_integer_ratio()
+    return f"{a}/{b}"
+
+
+def job_simulate(job):
+    """run the simulator over scripted resolutions of all its random calls (depth-first enumeration)"""
+    import random as pyrandom
+    from inputparser import Parser
+    from simulation import Simulator
+    import program.distribution.bernoulli as bern_mod
+
+    apply_settings(job.get("settings"))
+    res = {"id": job["id"], "kind": "simulate"}
+    N = job["N"]
+    max_runs = job.get("max_runs", 3000)
+    cur = {"s": None}
+
+    def choices(population, weights=None, k=1, **kw):
+        population = list(population)
+        if weights is None:
+            weights = [1.0] * len(population)
+        return [population[cur["s"].pick("choices", list(weights))]]
+
+    def choice(seq):
+        seq = list(seq)
+        return seq[cur["s"].pick("choice", [1.0] * len(seq))]
+
+    class BernStub:
+        @staticmethod
+        def rvs(p, *a, **kw):
+            idx = cur["s"].pick("bernoulli", [float(p), 1.0 - float(p)])
+            return 1 if idx == 0 else 0
+
+    class GuardProxy:
+        def __init__(self, inner):
+            self.inner = inner
+
+        def evaluate(self, state):
+            r = self.inner.evaluate(state)
+            cur["s"].log.append({"kind": "guard", "value": bool(r)})
+            return r
+
+        def __getattr__(self, name):
+            return getattr(self.inner, name)
+
+    try:
+        program = Parser().parse_string(job["text"])
+    except Exception as ex:
+        res.update(stage="parse", exc=type(ex).__name__, msg=str(ex)[:300])
+        return res
+    res["variables"] = sorted(str(v) for v in program.variables)
+    if "parsed" in job.get("want", []):
+        try:
+            vs, _ = program_symbols(program)
+            res["parsed"] = [Exporter(vs, {}).program(program)]
+        except Unsupported as ex:
+            res["parsed_unsupported"] = str(ex)
+    program.loop_guard = GuardProxy(program.loop_guard)
+    saved = (pyrandom.choices, pyrandom.choice, bern_mod.bernoulli)
+    pyrandom.choices, pyrandom.choice, bern_mod.bernoulli = choices, choice, BernStub
+    runs = []
+    complete = True
+    try:
+        sparse = "scripts_sparse" in job
+        script = forced = job.get("scripts", job.get("scripts_sparse"))   # spec -> code replay: explicit scripts
+        prefix = []
+        si = 0
+        while True:
+            if forced is not None:
+                if si >= len(forced):
+                    break
+                prefix = forced[si]
+                si += 1
+            cur["s"] = Scripted(prefix, sparse)
+            try:
+                result = Simulator(N).simulate(program, [], 1)
+            except Exception as ex:
+                runs.append({"exc": type(ex).__name__, "msg": str(ex)[:200], "prefix": list(prefix)})
+                log = cur["s"].log
+            else:
+                states = result.samples[0]
+                log = cur["s"].log
+                # split the events: everything before the first guard evaluation belongs to the initial block
+                groups, curg, guards = [], [], []
+                for ev in log:
+                    if ev["kind"] == "guard":
+                        groups.append(curg)
+                        curg = []
+                        guards.append(ev["value"])
+                    else:
+                        curg.append(ev)
+                groups.append(curg)
+
+                def st(d):
+                    return {str(k): float_frac(v) for k, v in d.items()}
+
+                def evs(g):
+                    return [{"kind": e["kind"], "idx": e["idx"], "weights": [float_frac(w) for w in e["weights"]]} for e in g]
+                run = {"init": {"ch": evs(groups[0]), "state": st(states[0])}, "iters": []}
+                for n in range(N):
+                    run["iters"].append({"guard": guards[n], "ch": evs(groups[n + 1]), "state": st(states[n + 1])})
+                runs.append(run)
+            if forced is not None:
+                continue
+            # next prefix: deepest choice point with an unexplored option
+            choice_events = [e for e in log if e["kind"] != "guard"]
+            nxt = None
+            for pos in range(len(choice_events) - 1, -1, -1):
+                e = choice_events[pos]
+                later = [o for o in e["options"] if o > e["idx"]]
+                if later:
+                    nxt = [c["idx"] for c in choice_events[:pos]] + [later[0]]
+                    break
+            if nxt is None:
+                break
+            prefix = nxt
+            if len(runs) >= max_runs:
+                complete = False
+                break
+    finally:
+        pyrandom.choices, pyrandom.choice, bern_mod.bernoulli = saved
+    res["runs"] = runs
+    res["complete"] = complete
+    return res
+
+
+def job_accepts(job):
+    """does Polar accept these texts?  (parse, normalize, one goal) -- outcome only"""
+    from inputparser import Parser
+    from program import normalize_program
+    from recurrences import RecBuilder
+    from cli.common import get_moment
+    out = []
+    for item in job["texts"]:
+        o = {"tid": item["tid"]}
+        apply_settings(job.get("settings"))
+        signal.alarm(int(item.get("timeout", 60)))
+        try:
+            program = Parser().parse_string(item["text"])
+            o["parsed"] = True
+            program = normalize_program(program)
+            o["normalized"] = True
+            if item.get("goal"):
+                rb = RecBuilder(program)
+                moment, _ = get_moment(symengine.sympify(item["goal"]), {}, rb,
+                                       Namespace(solvability_check=False, at_n=-1, after_loop=False), program)
+                o["value_n1"] = eval_closed_form(moment, {}, 1)
+        except JobTimeout:
+            o["exc"] = "timeout"
+        except Exception as ex:
+            o.update(exc=type(ex).__name__, msg=str(ex)[:200])
+        finally:
+            signal.alarm(int(job.get("timeout", 600)))
+        out.append(o)
+    return {"id": job["id"], "texts": out}
+
+
+JOBS = {"accepts": job_accepts, "analyze": job_analyze, "linrec": job_linrec, "explattice": job_explattice, "simulate": job_simulate}
 
 
 def handle(job):
